@@ -255,6 +255,10 @@ def check_pair(rox, mx, kind, a, fn, prefix=None):
     if E['status'] == 'apply':
         if raised:
             viol.append((P, 'references resolve but the merge raised %s' % type(exc).__name__))
+            if not isinstance(exc, X.MosRoMgrException):
+                # the named elements were not (all) acted on and nothing the library defines reported it
+                viol.append(('C06', 'named elements were not acted on and no mosromgr warning or error reported it: %s escaped'
+                             % type(exc).__name__))
         else:
             if seq_after != E['seq']:
                 viol.append((P, 'sequence after merge %s, protocol requires %s' % (seq_after, E['seq'])))
